@@ -2,5 +2,5 @@ SPECIFICATION Spec
 CONSTANTS
   Tier = "quick"
   Dev = "none"
-INVARIANTS ResultWellFormed DayNumInverse DaysRoundTrip DiffIsOffset MonthOverflow OrderChronological JulianAgrees LiteralRoundTrip Anchors
+INVARIANTS ResultWellFormed DayNumInverse DaysRoundTrip DiffIsOffset MonthOverflow OrderChronological JulianAgrees LiteralRoundTrip
 CHECK_DEADLOCK FALSE
